@@ -298,7 +298,7 @@ def run(ctx):
     # what the wallet-level validation must have seen: batches that found notes in two pools with different shard
     # extents in which a pool's own extent decided the table (Sapling, Orchard; Ironwood on the thorough tier), tip
     # updates through the Verify, the ChainTip and the Historic rule, with and without shard metadata
-    need = {"scan_extents_differ": 8, "scan_needs_S": 3, "scan_needs_O": 3, "tip_verify": 4, "tip_verify-empty": 1,
+    need = {"scan_extents_differ": 8, "scan_needs_S": 2, "scan_needs_O": 3, "tip_verify": 4, "tip_verify-empty": 1,
             "tip_chaintip": 10, "tip_historic": 10, "tip_historic+shard": 1, "tip_shard_above_scanned": 1,
             "prune_none": 5, "prune_some": 20, "prune_deleted": 5, "prune_demoted": 5, "prune_island": 1,
             "rescan": 10, "rescan_over_scanned": 3}
